@@ -1,9 +1,9 @@
-\* C45 phase 2 leg A quick: 2 rules servers with one of 4 rule choices each, fail modes none/warn/open/mid, WARN and ABORT,
+\* C45 phase 2 leg A thorough (second entry): 2 rules servers with <= 1 rule each, fail modes none/warn/open/mid, WARN and ABORT,
 \* 5 filter combinations; all interleavings.
 SPECIFICATION Spec
 CONSTANTS NClients = 2
           FailModes = {"none", "warn", "open", "mid"}
           Strategies = {"WARN", "ABORT"}
-          MaxPerClient = 0
+          MaxPerClient = 1
 INVARIANTS C45_RequestPathSatisfiesProperty OrderIndependent
 CHECK_DEADLOCK TRUE
